@@ -1,12 +1,15 @@
 (* Props/C16.v — placeholder; theorems are added as the proofs land. *)
 From TH Require Import Base.Bytes Http.Response Http.Request Http.Body Http.Serve.
 (* obsolete line folding: rejected by the repaired tree, interpreted by the tree as found (D8) *)
+Definition c16_fold_input : bytes :=
+  s "POST /a HTTP/1.1" ++ CRLF ++ s "X: a" ++ CRLF ++ s " Content-Length: 5" ++ CRLF ++ CRLF ++ s "hello".
 Example c16_example_fold :
-  let x := s "POST /a HTTP/1.1" ++ CRLF ++ s "X: a" ++ CRLF ++ s " Content-Length: 5" ++ CRLF ++ CRLF ++ s "hello" in
-  read_head fixed x = HeadBadHeader (1,1)%N /\
-  (exists hs rest, read_head asfound x = HeadOk (s "POST") (s "/a") (1,1)%N hs rest /\
-                   framing asfound hs = FrOk (KBuffered 5) (Some 5%N) false).
-Proof. split; [vm_compute; reflexivity|]. eexists. eexists. split; vm_compute; reflexivity. Qed.
+  read_head fixed c16_fold_input = HeadBadHeader (1,1)%N /\
+  match read_head asfound c16_fold_input with
+  | HeadOk _ _ _ hs _ => framing asfound hs
+  | _ => FrBadContentLength
+  end = FrOk (KBuffered 5) (Some 5%N) false.
+Proof. split; vm_compute; reflexivity. Qed.
 (* Content-Length: +5 / a list / 23 digits: 400 on the repaired tree; as found "+5" frames 5 bytes
    and the other two are treated as absent (D9) *)
 Example c16_example_cl :
